@@ -2,6 +2,6 @@
 # tools/take_seed2.sh <ID> [checks...] : copy a round-2 seed from /tmp/seedout2-<ID>, confirm it in a scratch worktree, run quick checks against it
 ID=$1; shift
 SRC=/tmp/seedout2-$ID; DST=/verif/seeded2/$ID
-mkdir -p $DST && cp $SRC/patch.diff $SRC/demo_test.go $SRC/notes.md $DST/ 2>/dev/null
+[ -f $DST/patch.diff ] || { mkdir -p $DST && cp $SRC/patch.diff $SRC/demo_test.go $SRC/notes.md $DST/ 2>/dev/null; }
 sh /verif/tools/confirm_seed.sh $ID $DST HEAD > /tmp/confirm2-$ID.json 2>&1; echo "confirm rc=$? $(tail -n 1 /tmp/confirm2-$ID.json)"
 [ $# -gt 0 ] && SEEDDIR=seeded2 sh /verif/tools/try_seed.sh $ID "$@"
